@@ -48,6 +48,50 @@ CLAIMED = {
             "recalc_residuals, PLSYPredictor / PLSYPredictorAllLV. Exploration of the counted cases only.",
             "Trusted: oracle preprocessing in oracle.hpp; orthogonality tolerance derived from the measured conditioning of each LV.",
             "DESIGN.md section 5, C03"),
+    "C04": ('property-based testing (rapidcheck, forked ASan/UBSan children): differential against Householder least squares in long double, RSS/R2 monotonicity, coefficient-form vs score-form predictions, metamorphic relation y -> c*y+d',
+            'Generated-input search over full-column-rank X with 1..3 responses, noise 0..300 %, all scaling pairs, nlv = rank: OLS limit, monotone RSS/R2, PLSBetasCoeff vs PLSYPredictorAllLV on training and unseen rows, affine equivariance of a centred response. Exploration of the counted cases only.',
+            'Trusted: oracle least squares / SVD in oracle.hpp; tolerances proportional to kappa^2 measured by the oracle.',
+            "DESIGN.md section 5, C04"),
+    "C05": ("property-based testing (rapidcheck, forked ASan/UBSan children): refit-through-the-public-API oracle on exactly the other folds (fold matrices reported by hook H4), metamorphic relation 'changing an object's own response leaves its prediction bit-identical', partition predicates enumerated for every group count",
+            'Generated-input search over data sets, learners (PLS, MLR, LDA), LOO / labelled k-fold / bootstrap with thread counts 1..8: every prediction equals the prediction of a model refitted on the other folds, no leakage, partitions, residual columns. Exploration of the counted cases only.',
+            'Trusted: the model fitting/prediction API itself (checked by C03/C04/C07/C08) is used for the refit; hook H4 reports the folds actually used.',
+            "DESIGN.md section 5, C05"),
+    "C06": ("schedule-controlled property-based testing: the library's pthread_create/join are wrapped and its workers serialised at the RNG yield points (hook H2); interleavings are generated (rapidcheck, shrinkable) and, for 2-3 workers on 3-4 objects, enumerated exhaustively by depth-first re-execution; free-running repetition; ThreadSanitizer replay of generated cases",
+            "Generated and enumerated schedules of the bootstrap workers' random-number calls: every schedule must give the fold matrices and predictions of the sequential run; three free-running repetitions bit-identical; no ThreadSanitizer report on generated inputs. Exhaustive only for the enumerated tiny configurations (stated in the evidence).",
+            "Trusted: the scheduler controls interleaving at RNG-call granularity only; other shared accesses are covered by ThreadSanitizer's happens-before analysis on the schedules that happen to run.",
+            "DESIGN.md section 5, C06"),
+    "C07": ('property-based testing (rapidcheck, forked ASan/UBSan children): differential against Householder least squares on [1 X] in long double; normal-equation identities; metamorphic relations y -> c*y+d and X -> X*M; re-used output buffers',
+            'Generated-input search over X (n x p, conditioning measured), 1..4 responses, noise 0..300 %: coefficients, residual orthogonality, R2/SDEC definitions, predictions on unseen rows into fresh and re-used outputs, equivariances. Exploration of the counted cases only.',
+            'Trusted: oracle least squares / SVD in oracle.hpp.',
+            "DESIGN.md section 5, C07"),
+    "C08": ('property-based testing (rapidcheck, forked ASan/UBSan children): discriminant recomputed from the stored model in long double, validity predicates, metamorphic relations (invertible affine map, row permutation), AUC of perfect predictions',
+            'Generated-input search over 2..5 classes, balanced/unbalanced, labels from 0 or 1, separations 1.5..30 sigma: priors/means, arg-max prediction in training labels, zero error when well separated, invariance of score differences, AUC = 1. Exploration of the counted cases only.',
+            'Trusted: oracle SVD for the conditioning-aware tolerances.',
+            "DESIGN.md section 5, C08"),
+    "C09": ("property-based testing (rapidcheck): differential against a long-double Jacobi eigen-decomposition of the block-scaled concatenation and against the library's own PCA; identities between super scores, block scores and weights",
+            'Generated-input search over 2..4 blocks, scaling 0..5, controlled gap ratios: super scores/explained variance vs PCA of the concatenation within the bound implied by the documented threshold, cumulative block variances, score prediction. Exploration of the counted cases only.',
+            'Trusted: Jacobi solver and reference preprocessing in oracle.hpp.',
+            "DESIGN.md section 5, C09"),
+    "C13": ('enumeration inside generated cases: every (rows, threads) pair with rows 0..40 and threads 1..24 for each of 13 kernels, compared with the single-thread routine (bit-equal) and the long-double definition; property-based testing of distance definitions; exhaustive bijection check of the condensed index map for n <= 40',
+            'Each slicing case enumerates all 984 (rows, threads) pairs for one kernel on generated strictly positive values with poisoned/zeroed outputs; distance matrices satisfy definition, symmetry, triangle inequality; condensed == strict upper triangle. Exhaustive for the slicing space per kernel visited (see evidence tags), exploration for values.',
+            'Trusted: reference loops in props/C13.cpp; hook H1 sets the processor count seen by the MT_ kernels.',
+            "DESIGN.md section 5, C13"),
+    "C14": ('stateful (model-based) property-based testing: operation histories over pools of containers interpreted against a shadow model after every step under ASan+UBSan in forked children; rapidcheck shrinks the op list',
+            'Generated histories of 1..40 operations (create/resize/copy/append shorter-equal-longer/delete/set/get/extend/sort/remove, out-of-range accessors) over vectors, matrices, tensors, lists: every cell and size equals the shadow model after every step, copies are deep, no sanitizer report. Exploration of the counted histories only.',
+            'Trusted: the shadow model in props/c14_interp.hpp encodes the documented meaning of each operation; clang ASan/UBSan.',
+            "DESIGN.md section 5, C14"),
+    "C15": ('property-based testing (rapidcheck): definitions in long double with forward error bounds; exact rational Mann-Whitney count; metamorphic relations (strictly increasing maps, permutation, negation)',
+            'Generated-input search over regression vectors (scales 1e-6..1e6, missing-coded truths, perfect predictions) and binary classification with distinct scores: R2/MSE/RMSE/MAE/BIAS and statistic tables, ROC/PR shape, AUC = Mann-Whitney, invariances. Exploration of the counted cases only.',
+            'Trusted: the reference formulas in props/C15.cpp.',
+            "DESIGN.md section 5, C15"),
+    "C17": ('property-based testing (rapidcheck, forked ASan/UBSan children): validity predicates and optimality recomputed with textbook metrics in long double; differential MaxDis vs MaxDis_Fast; equality with the 1-thread run',
+            'Generated-input search over objects in general position: distinct in-range indices, max-min optimality of every selection step, centroid = mean of members, nearest-centroid within the documented tolerance, thread-count independence. Exploration of the counted cases only.',
+            'Trusted: reference metrics in props/C17.cpp.',
+            "DESIGN.md section 5, C17"),
+    "C19": ('property-based testing (rapidcheck): piece identities and differential against a long-double natural spline, metamorphic unit change of x, exact polyline integral and additivity, simplex contracts on quadratics with known minimum',
+            'Generated-input search over knot vectors with spacings 1e-4..1e4 (uniform, irregular, mixed by 6 decades), polylines, strictly convex quadratics in 2..6 dimensions. Exploration of the counted cases only.',
+            'Trusted: reference spline in props/C19.cpp; the simplex convergence bound (1e-6 of the initial gap) is calibrated, see DESIGN.md section 7.',
+            "DESIGN.md section 5, C19"),
 }
 
 PENDING_REASON = "harness not built yet in this round (work in progress; see DESIGN.md section 5 for the planned check)"
